@@ -39,6 +39,8 @@ use stdio::{Pacing, Session, Step};
 use texts::{history_json, history_short, Event, Req, ALPHABET};
 
 struct Tier {
+    /// documents whose suspicious steps get stdio follow-up sessions (in-process: always both)
+    stdio_follow_up_docs: usize,
     depth: usize,
     /// histories up to this length also sweep the requests that violate at the reference level
     full_sweep_depth: usize,
@@ -47,9 +49,9 @@ struct Tier {
 
 fn tier_bounds(thorough: bool) -> Tier {
     if thorough {
-        Tier { depth: 4, full_sweep_depth: 2, stdio_depth: 3 }
+        Tier { depth: 4, full_sweep_depth: 2, stdio_depth: 3, stdio_follow_up_docs: 2 }
     } else {
-        Tier { depth: 3, full_sweep_depth: 2, stdio_depth: 2 }
+        Tier { depth: 3, full_sweep_depth: 2, stdio_depth: 2, stdio_follow_up_docs: 1 }
     }
 }
 
@@ -189,7 +191,7 @@ fn notification_step(uris: &[lsp_types::Url; 2], tabs: &Tables, e: &Event) -> St
         Event::Open { doc, text } | Event::Change { doc, text } => diag_params(&uris[*doc], &tabs.of(*doc, text).open),
         _ => None,
     };
-    Step { event: e.clone(), expect, idle_after: true }
+    Step { event: e.clone(), expect, idle_after: false }
 }
 
 /// Session for a notification history: the notifications, then every cleanly answered request on
@@ -203,6 +205,7 @@ fn sweep_session(uris: &[lsp_types::Url; 2], tabs: &Tables, h: &[Event]) -> Opti
             }
         }
         steps.push(notification_step(uris, tabs, e));
+        steps.last_mut().unwrap().idle_after = true;
     }
     let state = final_state(h);
     for doc in 0..2 {
@@ -240,7 +243,7 @@ fn follow_up_sessions(uris: &[lsp_types::Url; 2], tabs: &Tables, doc: usize, ti:
         event: Event::Request { doc: d, req: r.clone() },
         // no comparison where the in-process step itself did not end cleanly
         expect: tabs.of(d, t).get(r).filter(|o| o.clean()).and_then(|o| o.reply.as_ref().map(|r| r.to_json())),
-        idle_after: true,
+        idle_after: false,
     };
     let base = |pre: Vec<Event>| -> Vec<Step> {
         let mut steps: Vec<Step> = pre.iter().map(|e| notification_step(uris, tabs, e)).collect();
@@ -248,6 +251,8 @@ fn follow_up_sessions(uris: &[lsp_types::Url; 2], tabs: &Tables, doc: usize, ti:
         if let Some(r) = r {
             steps.push(req_step(doc, text, r));
         }
+        // the pacing sensitive point: is the dead analysis thread noticed before the next message?
+        steps.last_mut().unwrap().idle_after = true;
         steps
     };
     let mut sessions = vec![];
@@ -277,7 +282,12 @@ fn run_sessions<F: Fn(usize) -> Vec<Session> + Sync>(ls: &Path, uris: &[lsp_type
     // a machinery failure stops the remaining sessions; those in flight end normally, so no
     // server process is left behind
     let failed: std::sync::Mutex<Option<String>> = std::sync::Mutex::new(None);
-    let results: Vec<(u64, u64, u64, Vec<Violation>)> = (0..n)
+    // sessions mostly wait (for the server, for the 30 ms idles): run more of them than there are CPUs
+    let threads = std::env::var("VLSP_THREADS").ok().and_then(|s| s.parse().ok()).unwrap_or(std::thread::available_parallelism().map_or(4, |n| n.get()) * 3);
+    let done = std::sync::atomic::AtomicU64::new(0);
+    let t0 = std::time::Instant::now();
+    let pool = rayon::ThreadPoolBuilder::new().num_threads(threads).build().expect("thread pool");
+    let results: Vec<(u64, u64, u64, Vec<Violation>)> = pool.install(|| (0..n)
         .into_par_iter()
         .map(|k| {
             let (mut sessions, mut compared, mut died, mut vs) = (0, 0, 0, vec![]);
@@ -296,6 +306,10 @@ fn run_sessions<F: Fn(usize) -> Vec<Session> + Sync>(ls: &Path, uris: &[lsp_type
                         }
                     };
                     sessions += 1;
+                    let d = done.fetch_add(1, std::sync::atomic::Ordering::Relaxed) + 1;
+                    if d % 2000 == 0 {
+                        eprintln!("#   {d} stdio sessions after {:.1}s", t0.elapsed().as_secs_f64());
+                    }
                     compared += r.compared;
                     died += r.died as u64;
                     let notes: Vec<Event> = s.steps.iter().map(|st| st.event.clone()).collect();
@@ -310,7 +324,7 @@ fn run_sessions<F: Fn(usize) -> Vec<Session> + Sync>(ls: &Path, uris: &[lsp_type
             }
             (sessions, compared, died, vs)
         })
-        .collect();
+        .collect());
     if let Some(e) = failed.into_inner().unwrap() {
         vcommon::machinery_failure(&e);
     }
@@ -328,7 +342,7 @@ fn run_sessions<F: Fn(usize) -> Vec<Session> + Sync>(ls: &Path, uris: &[lsp_type
 /// and short).
 fn minimal_history(events: &[Event], step: Option<usize>) -> Vec<Event> {
     let requests = events.iter().filter(|e| matches!(e, Event::Request { .. })).count();
-    if step.is_none() && requests <= 3 {
+    if requests <= 3 {
         return events.to_vec();
     }
     events
@@ -423,12 +437,13 @@ fn check(dir: &Path) {
     run_sessions(&ls, &uris, stdio_hist.len(), |k| sweep_session(&uris, &tabs, &stdio_hist[k]).into_iter().collect(), &mut bag, &mut tot);
     let t_sweep = t0.elapsed().as_secs_f64();
     eprintln!("# stdio sweeps done after {t_sweep:.1}s: {} sessions, {} answers compared", tot.sessions, tot.compared);
+    let stdio_suspicious: Vec<_> = suspicious.iter().filter(|s| s.0 < tier.stdio_follow_up_docs).collect();
     run_sessions(
         &ls,
         &uris,
-        if skip.contains("followups") { 0 } else { suspicious.len() },
+        if skip.contains("followups") { 0 } else { stdio_suspicious.len() },
         |k| {
-            let (doc, ti, r) = &suspicious[k];
+            let (doc, ti, r) = stdio_suspicious[k];
             follow_up_sessions(&uris, &tabs, *doc, *ti, r)
         },
         &mut bag,
@@ -443,7 +458,7 @@ fn check(dir: &Path) {
     };
     let (valid, redef, pratt) = (ALPHABET[0].1, ALPHABET[3].1, ALPHABET[1].1);
     let samples = vec![
-        sample(vec![Event::Open { doc: 0, text: valid }, Event::Request { doc: 0, req: Req::Hover(5, 3) }, Event::Request { doc: 0, req: Req::Definition(5, 5) }]),
+        sample(vec![Event::Open { doc: 0, text: valid }, Event::Request { doc: 0, req: Req::Hover(5, 3) }, Event::Request { doc: 0, req: Req::Definition(5, 6) }]),
         sample(vec![Event::Open { doc: 1, text: redef }, Event::Change { doc: 1, text: pratt }, Event::Request { doc: 1, req: Req::References(3, 0, true) }]),
         sample(vec![Event::Open { doc: 0, text: valid }, Event::Open { doc: 1, text: ALPHABET[5].1 }, Event::Close { doc: 0 }, Event::Request { doc: 1, req: Req::Formatting }]),
     ];
@@ -472,9 +487,11 @@ fn check(dir: &Path) {
         "bounds": {
             "documents": 2, "texts": ALPHABET.len(), "notification_history_depth": tier.depth,
             "full_sweep_depth": tier.full_sweep_depth, "stdio_history_depth": tier.stdio_depth,
+            "stdio_follow_up_documents": tier.stdio_follow_up_docs,
             "positions": format!("every line, characters 0..=len+{}, plus line count with characters 0,1", texts::PAST_END),
             "requests_per_text": requests_per_text,
         },
+        "oracle_demands_at_reference_level": oracle::DEMANDS.iter().zip(oracle::DEMAND_COUNT.iter()).map(|(n, c)| (n.to_string(), json!(c.load(std::sync::atomic::Ordering::Relaxed)))).collect::<serde_json::Map<_, _>>(),
         "follow_up_origins": follow_origins,
         "sweep_requests_skipped_because_violating_at_reference_level": skipped,
         "stdio_sessions": tot.sessions,
